@@ -23,6 +23,10 @@ fn sum_exact(r: &RewardObs) -> Uint256 {
     r.holders.iter().fold(Uint256::zero(), |a, h| a + exact_accrued(h, g))
 }
 
+fn g1_probe(pre: &RewardObs, post: &RewardObs) -> bool {
+    post.state.global_index > pre.state.global_index && pre.state.total_balance.is_zero()
+}
+
 fn one256() -> Uint256 {
     Uint256::from(ONE)
 }
@@ -54,6 +58,12 @@ pub fn c14_c15_pool(m: &mut Mon, ctx: &StepCtx, stats: &mut Stats, out: &mut Vec
     }
     let paid_sum: u128 = paid.iter().map(|p| p.1).sum();
     m.delivered += (bank_post + paid_sum).saturating_sub(bank_pre);
+    if bank_post > bank_pre && pre.state.total_balance.is_zero() {
+        stats.probe("c14_delivery_while_nobody_holds_bsei");
+    }
+    if bank_post.saturating_sub(post.state.prev_reward_balance.u128()) > 0 && !post.state.total_balance.is_zero() && g1_probe(pre, post) {
+        stats.probe("c14_carried_rewards_picked_up");
+    }
     for h in &post.holders {
         m.holders_seen.insert(h.address.clone());
     }
